@@ -31,7 +31,13 @@ func (r *EntityRemote) Device() api.DeviceRemoteInterface {
 }
 
 func (r *EntityRemote) UpdateDeviceAddress(address model.AddressDeviceType) {
-	r.address.Device = &address
+	r.muxAddress.Lock()
+	defer r.muxAddress.Unlock()
+
+	// addresses handed out before are not changed, they may be in use
+	newAddress := *r.address
+	newAddress.Device = &address
+	r.address = &newAddress
 }
 
 func (r *EntityRemote) AddFeature(f api.FeatureRemoteInterface) {
